@@ -79,6 +79,8 @@ func (g *Gen) faultScenario() (setup []E, targets []E) {
 		{"op": "CreateCollection", "c": "newc"},
 		{"op": "CreateIndex", "c": main, "f": B("s")},
 		{"op": "DropIndex", "c": drop, "f": B("x")},
+		{"op": "DropIndex", "c": main, "f": B("xy")},
+		{"op": "CreateIndex", "c": main, "f": B("xy")},
 		{"op": "Import", "c": "imp", "path": "exp.json"},
 		{"op": "CreateByQuery", "name": "byq", "c": main, "q": []interface{}{where("gte")}},
 		{"op": "DropCollection", "c": drop},
@@ -127,7 +129,9 @@ func cmdFault(args []string) {
 	maxK := fs.Int("maxk", 400, "give up after this many positions for one target")
 	fuEvery := fs.Int("followup", 2, "follow-up write after every i-th faulted call")
 	par := fs.Int("par", 8, "parallel scenarios")
+	huge := fs.Bool("huge", false, "only one target: an insert batch beyond badger's transaction size limit, faulted at every 23rd call")
 	fs.Parse(args)
+	faultHuge = *huge
 
 	type result struct {
 		lines [][]byte
@@ -182,10 +186,24 @@ func cmdFault(args []string) {
 	fmt.Printf("fault: mode=%s seed=%d scenarios=%d events=%d -> %s\n", *mode, *seed, *n, events, *out)
 }
 
+var faultHuge bool
+
 func runFaultScenario(seed int64, be, mode string, perTarget, maxK, fuEvery int) ([][]byte, map[string]int) {
 	p := &Profile{Name: "fault", NumTable: "general", TimeTable: "general", Colls: 1, MaxDocs: 12, Indexes: true, W: weights(nil)}
 	g := NewGen(seed, p)
 	setup, targets := g.faultScenario()
+	stride := 1
+	if faultHuge {
+		// about 11 MB in one call: a store that refuses or splits the transaction must still leave
+		// nothing of an abandoned or failed call behind
+		docs := make([]interface{}, 0)
+		for i := 0; i < 170; i++ {
+			docs = append(docs, AObj("_id", AStr(bulkId(500+i)), "x", ANum(g.smallN[i%len(g.smallN)], "i"), "p", APad(65536)))
+		}
+		targets = []E{{"op": "Insert", "c": "m", "docs": docs}}
+		perTarget = 0
+		stride = 23
+	}
 	if perTarget > 0 && perTarget < len(targets) {
 		perm := g.r.Perm(len(targets))[:perTarget]
 		sortInts(perm)
@@ -230,8 +248,24 @@ func runFaultScenario(seed int64, be, mode string, perTarget, maxK, fuEvery int)
 		d := AObj("_id", AStr(bulkId(fuN)), "n", AStr(fmt.Sprintf("fu%d", fuN)))
 		note(x.Step(E{"op": "Insert", "c": "fu", "docs": []interface{}{d}}, true))
 	}
+	// what the handle itself answers after a failed call (its view must be the stored one)
+	probes := []E{{"op": "ListIndexes", "c": "m"}, {"op": "Count", "c": "m", "q": []interface{}{}},
+		{"op": "FindAll", "c": "m", "q": []interface{}{[]interface{}{"sort", []interface{}{[]interface{}{B("x"), 1}, []interface{}{B("_id"), 1}}}}},
+		{"op": "ListIndexes", "c": "d"}, {"op": "HasIndex", "c": "m", "f": B("xy")}, {"op": "ListCollections"},
+		{"op": "FindAll", "c": "d", "q": []interface{}{[]interface{}{"where", []interface{}{"un", "exists", B("x"), []interface{}{"none"}}}}}}
+	probeN := 0
+	probe := func() {
+		for i := 0; i < 2; i++ {
+			e := E{}
+			for kk, v := range probes[probeN%len(probes)] {
+				e[kk] = v
+			}
+			probeN++
+			note(x.Step(e, false))
+		}
+	}
 	for _, t := range targets {
-		for k := 1; k <= maxK && !b.dead; k++ {
+		for k := 1 + int(seed)%stride; k <= maxK*stride && !b.dead; k += stride {
 			e := E{}
 			for kk, v := range t {
 				e[kk] = v
@@ -249,7 +283,8 @@ func runFaultScenario(seed int64, be, mode string, perTarget, maxK, fuEvery int)
 			if mode == "abandon" {
 				note(x.Step(E{"op": "Reopen"}, true))
 			}
-			if k%fuEvery == 0 || line["fault"].(E)["kind"] == "commit" {
+			probe()
+			if (k/stride)%fuEvery == 0 || line["fault"].(E)["kind"] == "commit" {
 				followup()
 			}
 		}
